@@ -7,6 +7,7 @@ var Registry = map[string]func(Tier) int{
 	"C03": C03,
 	"C04": C04,
 	"C05": C05,
+	"C06": C06,
 	"C08": C08,
 	"C09": C09,
 	"C10": C10,
@@ -14,6 +15,8 @@ var Registry = map[string]func(Tier) int{
 	"C12": C12,
 	"C14": C14,
 	"C15": C15,
+	"C16": C16,
+	"C17": C17,
 	"C20": C20,
 }
 
